@@ -58,10 +58,13 @@ class SourceFile:
         return cls.cache[rel]
 
     def find(self, path):
-        path = re.sub(r'\s+', '', path) if path.startswith('<') or path.startswith('impl') else path
         key = path
-        if path.startswith('impl'):
-            key = 'impl ' + path[4:]
+        m = re.match(r'^(impl\s+)?<\s*(.*?)\s+as\s+(.*)>(::\w+)?$', path)
+        if m:
+            key = ('impl ' if m.group(1) else '') + '<%s as %s>' % (re.sub(r'\s+', '', m.group(2)).split('::')[-1].split('<')[0],
+                                                                 re.sub(r'\s+', '', m.group(3))) + (m.group(4) or '')
+        elif path.startswith('impl'):
+            key = 'impl ' + path[4:].strip()
         cands = self.index.get(key)
         if not cands:
             raise LostAnchor('item `%s` not found in %s' % (path, self.rel))
@@ -222,6 +225,7 @@ class FnDirective:
         self.loops = {}    # n -> dict(text, line, binder, match)
         self.head = ('', line)
         self.inserts = []  # (where, literal, text, line)
+        self.closures = []  # (literal, ret, text, line)
 
 
 def parse_unit(path):
@@ -248,6 +252,9 @@ def parse_unit(path):
             elif section[0] == 'insert':
                 w, lit, _, ln = cur_fn.inserts[section[1]]
                 cur_fn.inserts[section[1]] = (w, lit, text, buf_line)
+            elif section[0] == 'closure':
+                lit, ret, _, ln = cur_fn.closures[section[1]]
+                cur_fn.closures[section[1]] = (lit, ret, text, buf_line)
         buf = []
 
     for ln_no, line in enumerate(open(path, encoding='utf-8').read().split('\n'), 1):
@@ -260,6 +267,13 @@ def parse_unit(path):
             if not words:
                 continue
             cmd = words[0]
+            if cmd in ('take', 'fn') and len(words) > 2 and (words[2].startswith('<') or words[2] == 'impl'):
+                # item paths such as `<T as Trait>::name` or `impl <T as Trait>` contain spaces
+                k = 2
+                while '>' not in words[k] and k + 1 < len(words):
+                    k += 1
+                # keep joining while the next word continues the path (e.g. generic args)
+                words = words[:2] + [' '.join(words[2:k + 1])] + words[k + 1:]
             if cmd == 'take':
                 opts = words[3:]
                 nodes.append(('take', words[1], words[2], opts, ln_no))
@@ -292,11 +306,23 @@ def parse_unit(path):
                     info['match'] = mm.group(1).strip()
                 cur_fn.loops[n] = info
                 section = ('loop', n)
+            elif cmd == 'closure':
+                # //@ closure ret=<name:Type> at <literal start of the closure>
+                m = re.match(r'closure\s+ret=(\S+)\s+at\s+(.*)$', d)
+                if not m:
+                    raise SystemExit('%s:%d: bad closure directive' % (path, ln_no))
+                cur_fn.closures.append((m.group(2).strip(), m.group(1), '', ln_no))
+                section = ('closure', len(cur_fn.closures) - 1)
             elif cmd == 'insert':
                 where = words[1]
                 lit = d.split(None, 2)[2]
                 cur_fn.inserts.append((where, lit, '', ln_no))
                 section = ('insert', len(cur_fn.inserts) - 1)
+            elif cmd == 'include':
+                inc = os.path.join(os.path.dirname(os.path.dirname(path)), words[1])
+                nodes.append(('raw_fixed', open(inc, encoding='utf-8').read(), ln_no))
+            elif cmd == 'expect':
+                nodes.append(('expect', words[1], d.split(None, 2)[2], ln_no))
             elif cmd in ('unit', 'note'):
                 pass
             else:
@@ -420,6 +446,24 @@ def render_fn(sf, item, d, drops, em, canary, take_opts=()):
                 splices[ls] = (text, uline)
             else:
                 splices[le + 1] = (text, uline)
+    if d:
+        for (lit, ret, text, uline) in d.closures:
+            k = src.find(lit, body_open + 1, body_close)
+            if k < 0 or src[k] != '|' and not src.startswith('move', k):
+                raise LostAnchor('%s: closure %r not found' % (d.path, lit))
+            p0 = src.index('|', k)
+            p1 = src.index('|', p0 + 1)          # end of parameter list (no `|` patterns in params)
+            b = R.skip_ws(src, mask, p1 + 1, body_close)
+            rname, rtype = ret.split(':', 1)
+            contract = ' -> (%s: %s) %s ' % (rname, rtype.replace('~', ' '), ' '.join(text.split()))
+            if src[b] == '{':
+                inline[b] = inline.get(b, '') + contract
+            else:
+                e = R.find_at_depth0(src, mask, b, body_close, ',);', track='([{')
+                if e < 0:
+                    raise LostAnchor('%s: cannot find the end of closure %r' % (d.path, lit))
+                inline[b] = inline.get(b, '') + contract + '{ '
+                inline[e] = ' }' + inline.get(e, '')
     # walk the body
     i = body_open + 1
     seg_start = i
@@ -503,6 +547,12 @@ def generate(unit_dir, out_path, canary=False):
     for node in nodes:
         if node[0] == 'raw':
             em.emit(node[1], 'unit', node[2])
+        elif node[0] == 'raw_fixed':
+            em.emit_fixed(node[1], 'unit', node[2])
+        elif node[0] == 'expect':
+            sf = SourceFile.get(node[1])
+            if re.sub(r'\s+', ' ', node[2]) not in re.sub(r'\s+', ' ', sf.src):
+                raise LostAnchor('expected text %r no longer present in %s' % (node[2], node[1]))
         elif node[0] == 'take':
             _, file, path, opts, line = node
             sf = SourceFile.get(file)
@@ -514,10 +564,10 @@ def generate(unit_dir, out_path, canary=False):
             item = sf.find(d.path)
             if item.kind != 'fn':
                 raise LostAnchor('%s is not a fn' % d.path)
-            wrap = impl_wrap_open(sf, item)
+            wrap = impl_wrap_open(sf, item) if 'nowrap' not in d.opts else None
             if wrap:
                 em.emit_fixed(wrap, sf.rel, R.line_of(sf.src, item.parent.decl))
-            want_canary = canary and 'canary=no' not in d.opts and 'external_body' not in d.opts
+            want_canary = canary and 'canary=no' not in d.opts and 'external_body' not in d.opts and 'nowrap' not in d.opts
             if want_canary:
                 # the original is not re-verified in the canary file
                 d2_opts = d.opts
@@ -534,7 +584,7 @@ def generate(unit_dir, out_path, canary=False):
                     'requires': sum(split_clauses(b) for k, b in secs if k == 'requires'),
                     'ensures': sum(split_clauses(b) for k, b in secs if k == 'ensures'),
                     'invariants': 0, 'loops': len(d.loops), 'assumed': 'external_body' in d.opts,
-                    'canary': 'canary=no' not in d.opts and 'external_body' not in d.opts}
+                    'canary': 'canary=no' not in d.opts and 'external_body' not in d.opts and 'nowrap' not in d.opts}
             for n, linfo in d.loops.items():
                 for k, b in spec_sections(linfo['text']):
                     if k.startswith('invariant'):
